@@ -25,7 +25,7 @@ import itertools
 import z3
 
 __all__ = [
-    "Engine", "Hooks", "Rec", "Opaque", "SliceV", "Raise", "Unsupported", "PathResult", "is_sym",
+    "Engine", "Hooks", "Rec", "Template", "Opaque", "SliceV", "Raise", "Unsupported", "PathResult", "is_sym",
     "fresh_int", "fresh_bool", "fresh_real",
 ]
 
@@ -84,6 +84,42 @@ class Opaque:
 
     def __repr__(self):
         return f"Opaque<{self.tag}#{self.uid}>"
+
+
+class Template:
+    """text with symbolic holes (the value of an f-string that formats symbolic integers)"""
+
+    def __init__(self, parts):
+        out = []
+        for p_ in parts:
+            if isinstance(p_, Template):
+                out.extend(p_.parts)
+            else:
+                out.append(p_)
+        merged = []
+        for p_ in out:
+            if isinstance(p_, str) and merged and isinstance(merged[-1], str):
+                merged[-1] += p_
+            elif not (isinstance(p_, str) and p_ == ""):
+                merged.append(p_)
+        self.parts = merged
+
+    def __repr__(self):
+        return "Template(" + "".join(p_ if isinstance(p_, str) else "{" + str(p_) + "}" for p_ in self.parts) + ")"
+
+
+def _concrete(v, depth=0):
+    if isinstance(v, (str, int, float, bool, bytes)) or v is None:
+        return True
+    if isinstance(v, (list, tuple, set, frozenset)) and depth < 4:
+        return all(_concrete(x, depth + 1) for x in v)
+    if isinstance(v, dict) and depth < 4:
+        return all(_concrete(k, depth + 1) and _concrete(x, depth + 1) for k, x in v.items())
+    return False
+
+
+PYTYPES = {"tuple": tuple, "set": set, "list": list, "str": str, "int": int, "dict": dict, "float": float,
+           "bool": bool, "bytes": bytes, "frozenset": frozenset}
 
 
 class SliceV:
@@ -463,7 +499,25 @@ class Engine:
             return self.try_stmt(s, env)
         if isinstance(s, ast.With):
             return self.with_stmt(s, env)
-        if isinstance(s, (ast.For, ast.While)):
+        if isinstance(s, ast.For):
+            it = self.eval(s.iter, env)
+            items = self.concrete_iter(it)
+            if items is None:
+                return self.hooks.loop(self, s, env)
+            broke = False
+            for item in items:  # iteration over a container of concrete shape: exact unrolling
+                self.assign(s.target, item, env)
+                try:
+                    self.block(s.body, env)
+                except _Break:
+                    broke = True
+                    break
+                except _Continue:
+                    continue
+            if not broke:
+                self.block(s.orelse, env)
+            return
+        if isinstance(s, ast.While):
             return self.hooks.loop(self, s, env)
         if isinstance(s, ast.Break):
             raise _Break()
@@ -567,6 +621,23 @@ class Engine:
             raise
         self.hooks.with_exit(self, ctx, None, env)
 
+    def concrete_iter(self, it):
+        if isinstance(it, (list, tuple)):
+            return list(it)
+        if isinstance(it, dict):
+            return list(it.keys())
+        if isinstance(it, (set, frozenset)) and _concrete(it):
+            return sorted(it, key=repr)
+        if isinstance(it, str):
+            return list(it)
+        if isinstance(it, range):
+            return list(it)
+        if isinstance(it, type({}.items())) or isinstance(it, type({}.values())) or isinstance(it, type({}.keys())):
+            return list(it)
+        if isinstance(it, (enumerate, zip)):
+            return list(it)
+        return None
+
     def assign(self, t, v, env):
         if isinstance(t, ast.Name):
             env[t.id] = v
@@ -598,8 +669,10 @@ class Engine:
             return v
         if isinstance(v, (int, float)):
             return v != 0
-        if isinstance(v, (str, tuple, list, dict)):
+        if isinstance(v, (str, tuple, list, dict, set, frozenset)):
             return len(v) != 0
+        if isinstance(v, Template):
+            return True if any(not isinstance(p_, str) or p_ for p_ in v.parts) else False
         if is_sym(v):
             if z3.is_bool(v):
                 return self.branch(v)
@@ -627,6 +700,8 @@ class Engine:
     def binop(self, op, l, r):
         if isinstance(l, (list, tuple, str)) and not is_sym(l) and isinstance(op, ast.Add) and type(l) is type(r):
             return l + r
+        if isinstance(op, ast.Add) and (isinstance(l, Template) or isinstance(r, Template)):
+            return Template([l, r])
         if isinstance(op, ast.Add):
             if is_sym(l) and z3.is_string(l) or is_sym(r) and z3.is_string(r):
                 return z3.Concat(_s(l), _s(r))
@@ -722,6 +797,8 @@ class Engine:
             return z3.Contains(container, _s(item))
         if isinstance(container, str) and is_sym(item):
             return z3.Contains(z3.StringVal(container), item)
+        if isinstance(container, (str, bytes)) and isinstance(item, (str, bytes)):
+            return item in container
         if isinstance(container, (tuple, list, set, frozenset, dict)):
             if not is_sym(item) and not any(is_sym(c) for c in container):
                 return item in container
@@ -740,6 +817,8 @@ class Engine:
                 return env[e.id]
             if e.id in ("True", "False", "None"):
                 return {"True": True, "False": False, "None": None}[e.id]
+            if e.id in PYTYPES:
+                return PYTYPES[e.id]
             return self.hooks.global_name(self, e.id)
         if isinstance(e, ast.Tuple):
             return tuple(self.eval(x, env) for x in e.elts)
@@ -847,17 +926,39 @@ class Engine:
                     parts.append(v.value)
                 else:
                     val = self.eval(v.value, env)
-                    if isinstance(val, str):
+                    if isinstance(val, (str, Template)):
                         parts.append(val)
-                    elif is_sym(val) and z3.is_string(val):
+                    elif isinstance(val, bool) or val is None:
+                        parts.append(str(val))
+                    elif isinstance(val, int) and v.format_spec is None:
+                        parts.append(str(val))
+                    elif is_sym(val) and (z3.is_string(val) or (z3.is_int(val) and v.format_spec is None)):
                         parts.append(val)
                     else:
                         return Opaque("fstring")
             if all(isinstance(p, str) for p in parts):
                 return "".join(parts)
+            if any(is_sym(p) and z3.is_int(p) for p in parts) or any(isinstance(p, Template) for p in parts):
+                return Template(parts)
             return z3.Concat(*[_s(p) for p in parts]) if len(parts) > 1 else _s(parts[0])
         if isinstance(e, ast.Lambda):
             return ("lambda", e, env)
+        if isinstance(e, (ast.ListComp, ast.GeneratorExp, ast.SetComp)):
+            if len(e.generators) != 1:
+                raise Unsupported("nested comprehension")
+            g = e.generators[0]
+            items = self.concrete_iter(self.eval(g.iter, env))
+            if items is None:
+                raise Unsupported("comprehension over symbolic iterable")
+            out = []
+            local = dict(env)
+            for item in items:
+                self.assign(g.target, item, local)
+                if all(self.truth(self.eval(c, local)) for c in g.ifs):
+                    out.append(self.eval(e.elt, local))
+            return set(out) if isinstance(e, ast.SetComp) else out
+        if isinstance(e, ast.Set):
+            return set(self.eval(x, env) for x in e.elts)
         if isinstance(e, ast.Starred):
             raise Unsupported("starred")
         raise Unsupported(type(e).__name__)
@@ -923,9 +1024,39 @@ class Engine:
                 if len(args) > 1:
                     return args[1]
                 raise Raise("KeyError")
-            if isinstance(obj, list) and f.attr == "append":
-                obj.append(args[0])
-                return None
+            if isinstance(obj, list) and f.attr in ("append", "extend", "insert", "pop", "copy", "index", "count"):
+                if f.attr == "extend":
+                    items = self.concrete_iter(args[0])
+                    if items is None:
+                        raise Unsupported("extend with symbolic iterable")
+                    obj.extend(items)
+                    return None
+                try:
+                    return getattr(obj, f.attr)(*args)
+                except IndexError:
+                    raise Raise("IndexError")
+                except ValueError:
+                    raise Raise("ValueError")
+            if isinstance(obj, dict) and f.attr in ("items", "keys", "values", "copy", "update", "setdefault"):
+                return getattr(obj, f.attr)(*args, **kw)
+            if isinstance(obj, str) and f.attr == "join" and len(args) == 1 and isinstance(args[0], (list, tuple)) \
+                    and not all(isinstance(a, str) for a in args[0]):
+                parts = []
+                for i_, a in enumerate(args[0]):
+                    if i_:
+                        parts.append(obj)
+                    if not isinstance(a, (str, Template)) and not (is_sym(a) and z3.is_string(a)):
+                        raise Unsupported("join of non-text")
+                    parts.append(a)
+                if any(isinstance(a, Template) for a in parts):
+                    return Template(parts)
+                return z3.Concat(*[_s(a) for a in parts]) if len(parts) > 1 else _s(parts[0])
+            if isinstance(obj, (str, bytes, tuple, frozenset, int, float)) and not isinstance(obj, bool) \
+                    and _concrete(args) and _concrete(kw) and not f.attr.startswith("_"):
+                try:  # pure method of an immutable builtin on concrete arguments: computed by CPython itself
+                    return getattr(obj, f.attr)(*args, **kw)
+                except (ValueError, IndexError, KeyError, TypeError, AttributeError) as ex:
+                    raise Raise(type(ex).__name__)
             return self.hooks.call_method(self, obj, f.attr, args, kw, env)
         fn = self.eval(f, env)
         return self.call_value(fn, args, kw, env)
@@ -991,6 +1122,19 @@ class Engine:
                 return z3.simplify(t) if is_sym(v) else bool(v)
             return self.truth(v)
         if n == "isinstance" and len(args) == 2:
+            v, t = args
+            ts = t if isinstance(t, tuple) else (t,)
+            if all(isinstance(x, type) for x in ts):
+                if is_sym(v):
+                    kinds = (int,) if z3.is_int(v) else (bool,) if z3.is_bool(v) else (float,) if z3.is_real(v) \
+                        else (str,) if z3.is_string(v) else ()
+                    if not kinds:
+                        return _FAIL
+                    return any(issubclass(k, x) for k in kinds for x in ts)
+                if isinstance(v, Template):
+                    return any(issubclass(str, x) for x in ts)
+                if _concrete(v):
+                    return isinstance(v, ts)
             return _FAIL
         if n == "tuple" and len(args) == 1 and isinstance(args[0], (tuple, list)):
             return tuple(args[0])
